@@ -217,6 +217,7 @@ pub fn check(ctx: &mut Ctx) {
     ctx.random("mutated-ast", 400, 150_000, 2_000_000, |t| junkgen::gen_mutated(t, &mo), |c, obs| oracle(c, obs, false));
     minimize_src_failure(ctx, "mutated-ast");
     cli_exit_status(ctx);
+    deep_nesting(ctx);
     if ctx.tier == Tier::Thorough {
         let pairs = all_pairs(true);
         let mut seeds = vec![];
@@ -407,4 +408,56 @@ fn cli_exit_status(ctx: &mut Ctx) {
         },
     );
     ctx.max_shrink_iters = 40_000;
+}
+
+
+/// Long chains of open tags (recursion depth of the parser = number of simultaneously open tags).
+/// Below the bound everything must work; beyond it the binary is known to overflow its stack (KF4).
+fn deep_nesting(ctx: &mut Ctx) {
+    if ctx.failed() {
+        return;
+    }
+    let bound = 2500usize;
+    let mut cases: Vec<JunkCase> = vec![];
+    for (ds, de) in [("<", ">"), ("<!-- <", "> -->")] {
+        for k in [50usize, 400, 1200, bound] {
+            let cfg = Cfg::simple(ds, de);
+            let open = format!("{ds}rm name='a'{de}\n");
+            let close = format!("{ds}/rm{de}\n");
+            // never closed, closed in order (nested elements), unknown names, crossing tails
+            cases.push(JunkCase { src: open.repeat(k), cfg: cfg.clone() });
+            cases.push(JunkCase { src: format!("{}x\n{}", open.repeat(k), close.repeat(k)), cfg: cfg.clone() });
+            cases.push(JunkCase { src: format!("{ds}zz{de}").repeat(k), cfg: cfg.clone() });
+            cases.push(JunkCase { src: format!("{}{}", format!("{ds}tl to='2999-01-01 00:00:00'{de}").repeat(k), format!("{ds}/zz{de}").repeat(k)), cfg: cfg.clone() });
+        }
+    }
+    let n = cases.len();
+    ctx.exhaustive("deep-nesting", &format!("{n} documents with chains of 50..{bound} simultaneously open tags (never closed / properly nested / unknown names / stray closers), 5 entry points each"), cases.into_iter().map(|c| vec![c]).collect(), |cs, obs| {
+        for c in cs {
+            obs.eval();
+            if let Verdict::Fail(m) = oracle(c, obs, true) {
+                let mut small = c.clone();
+                small.src = truncate(&c.src, 400);
+                return Some(fail_case("deep-nesting", &small, format!("{m} (document of {} bytes)", c.src.len())));
+            }
+            obs.max("open-tag-chain", c.src.matches(&c.cfg.ds).count() as u64);
+        }
+        None
+    });
+    // KF4 witness through the binary (main thread, default 8 MiB stack)
+    if ctx.failed() || !ctx.is_known("deep-open-tag-chain") {
+        return;
+    }
+    if !crate::cli::cli_available() {
+        return;
+    }
+    let src = "<!-- <a> -->\n".repeat(40_000);
+    if let Ok(o) = crate::cli::run_cli(&[], Some(src.as_bytes()), &[], None) {
+        if o.status != 0 {
+            let what = ctx.known.iter().find(|k| k.signature == "deep-open-tag-chain").map(|k| k.what.clone()).unwrap_or_default();
+            let line = format!("KNOWN-FINDING: property=C01 {what} (KF4; signature=deep-open-tag-chain; the binary exited with status {} on 40000 unclosed tags)", o.status);
+            println!("{line}");
+            ctx.known_printed.push(line);
+        }
+    }
 }
